@@ -64,6 +64,13 @@ def binder_sequences():
         "r := [10, 20]~ @ (v: int) -> int { return v + 1 } $]",
         "r := [10, 20]~ $0 (v: int, c: int) -> int { return v + c }",
         "loop { v := 5; w += v; break }",
+        # blocks / branches made of ONE declaring instruction
+        "{ v := 99 }",
+        "{ (v, z) := (5, 6) }",
+        "{ v := () -> int { return 3 } }",
+        "if true { v := 5 } else { v := 6 }",
+        "if *w == 0 { v := 5 }",
+        "r := match src[0] { y: int => { v := y } => { 0 } }",
     ]
     out = []
     for first in ("v := 1", "v := \"top\"", "v := mut 1"):
